@@ -450,6 +450,13 @@ impl<'p> CoroutinePool<'p> {
             if CANCEL_TASKS.contains(&task_id) {
                 _ = CANCEL_TASKS.remove(&task_id);
                 warn!("Cancel task:{} successfully !", task_id);
+                // the task will never run: settle whoever waits for it
+                if self.no_waits.contains(&task_id) {
+                    _ = self.no_waits.remove(&task_id);
+                    return;
+                }
+                _ = self.results.insert(task_id, Err("The task was cancelled"));
+                self.notify(task_id);
                 return;
             }
             if let Some(co) = SchedulableCoroutine::current() {
@@ -494,6 +501,13 @@ impl<'p> CoroutinePool<'p> {
             // todo windows support
             #[allow(unused_variables)]
             if let Some(pthread) = Scheduler::get_scheduling_thread(co_name) {
+                #[cfg(unix)]
+                if pthread == nix::sys::pthread::pthread_self() {
+                    // A task cancelling itself: the handler runs on this very stack and never
+                    // returns, so the map guard must be released first or its shard stays
+                    // locked forever.
+                    drop(info);
+                }
                 // 发送SIGVTALRM信号，在运行时取消任务
                 #[cfg(unix)]
                 if nix::sys::pthread::pthread_kill(pthread, nix::sys::signal::Signal::SIGVTALRM)
